@@ -1,5 +1,7 @@
 package checks
 
+import "fmt"
+
 // intentstats.go — class labels measured on a generated Intent (what did the generator
 // actually produce?), shared by the intent-oracle checks.
 
@@ -99,6 +101,16 @@ func statsOf(in *Intent) intentStats {
 				cl["collector_"+l.Kind] = true
 			}
 		}
+		var walkRest func(ns []*RestNode)
+		walkRest = func(ns []*RestNode) {
+			for _, n := range ns {
+				if n.PathVar != nil && len(n.PathVar.T.RefPath) > 0 {
+					cl[fmt.Sprintf("path_var_typed_by_ref_%d", len(n.PathVar.T.RefPath))] = true
+				}
+				walkRest(n.Children)
+			}
+		}
+		walkRest(a.Rest)
 		if len(a.Mixins) > 0 {
 			cl["mixin"] = true
 		}
